@@ -743,6 +743,34 @@ impl HealthChecker {
 /// HTTP/2 frame walker depending on whether the probe was sent as h2c.
 /// `h2c` is captured from `BackendMap.cluster_http2` on the
 /// `InFlightCheck` at probe-creation time.
+/// verif hook: the checker reads `Instant::now()`; the out-of-tree verification
+/// harness (`--cfg sozu_verif`) lets time pass by making every in-flight probe
+/// and every cluster's last round `d` older, and reads which probes are in
+/// flight. Never compiled into a normal build.
+#[cfg(sozu_verif)]
+impl HealthChecker {
+    pub fn verif_age(&mut self, d: Duration) {
+        for check in self.in_flight.iter_mut() {
+            if let Some(t) = check.started_at.checked_sub(d) {
+                check.started_at = t;
+            }
+        }
+        for last in self.last_check_time.values_mut() {
+            if let Some(t) = last.checked_sub(d) {
+                *last = t;
+            }
+        }
+    }
+
+    /// `(cluster_id, backend_id, address)` of every probe in flight
+    pub fn verif_in_flight(&self) -> Vec<(String, String, SocketAddr)> {
+        self.in_flight
+            .iter()
+            .map(|c| (c.cluster_id.clone(), c.backend_id.clone(), c.address))
+            .collect()
+    }
+}
+
 fn parse_probe_response(buf: &[u8], config: &HealthCheckConfig, h2c: bool) -> Option<bool> {
     if h2c {
         try_parse_h2c_status(buf, config)
